@@ -58,6 +58,9 @@ def cases(ctx):
         items.append([r.randrange(2 ** w), w + r.choice([0, 0, 3]), r.random() < 0.5])
     for _ in range(20):
         items.append([r.randrange(2 ** 20), r.randint(0, 10), r.random() < 0.5])     # i wider than w: never truncated
+    for w in (53, 54, 55, 63, 64, 65, 100):
+        for i in (2 ** (w - 1) + 1, 2 ** w - 1, 2 ** (w - 1) + 2 ** (w // 2) + 3, r.randrange(2 ** (w - 1), 2 ** w) | 1):
+            items.append([i, w, r.random() < 0.5])                                    # beyond the mantissa of a float
     yield {"op": "bits", "items": items, "src": "BITS"}
 
 
